@@ -1,26 +1,1255 @@
-//! C10 - not built yet.
-use crate::engine::{PropertyInfo, RunCtx};
+//! C10 - retain file: lossless codec and crash-atomic save.
+//!
+//! (a) `roundtrip`: sequences of generated snapshots over every retainable `Value` shape are
+//!     stored and loaded through `FileRetainStore` in a scratch directory; the loaded
+//!     snapshot must equal the stored one bitwise (floats compared as bit patterns, entry
+//!     and field order included).
+//! (b) `crash`: a child process (`tpv c10-writer`) stores `s_old`, arms the LD_PRELOAD shim
+//!     (`shim/crashshim.c`) and stores `s_new`; the shim terminates it before / after /
+//!     in the middle of file-changing libc call number K. K is enumerated from 1 until the
+//!     child completes normally. After every kill the parent loads the file: the result must
+//!     be `Ok(s_old)` or `Ok(s_new)`, and a following store + load must work.
+//! (c) `bytes`: valid images produced by an independent STRN encoder are corrupted
+//!     structure-aware (every tag/length/count field patched to boundary values, deep
+//!     nesting, truncation, splicing, raw bytes) and loaded under RLIMIT_AS on an 8 MiB
+//!     stack: `Ok` or `Err`, never a panic, an abort or an allocation that is not backed by
+//!     the file's size; `Ok` results must survive a store + load unchanged.
+
+use std::cell::RefCell;
+use std::path::{Path, PathBuf};
+use std::time::{Duration, Instant};
+
+use proptest::prelude::*;
+use serde::{Deserialize, Serialize};
+use serde_json::json;
+use trust_runtime::retain::{FileRetainStore, RetainStore};
+
+use crate::engine::tape::{tape_strategy, Tape};
+use crate::engine::{catch, digest64, verif_root, Probe, PropertyInfo, RunCtx};
+
+mod model;
+use model::{clip, diff, encode, FieldKind, Gen, GenCfg, MSnap, MV, TAG_COUNT};
 
 pub fn info() -> PropertyInfo {
     PropertyInfo {
         id: "C10",
-        level: "exploration",
-        rule: "not built yet",
-        assumptions: &[],
-        workers_quick: 1,
-        workers_thorough: 1,
-        address_space_limit: 0,
-        watchdog_quick_s: 600,
-        watchdog_thorough_s: 3600,
+        level: "fault_enumeration",
+        rule: "three searches. roundtrip: sequences of 1-3 generated snapshots (all 31 value tags, nesting <= 4 in quick / <= 6 in thorough, NaN payloads, -0.0, extremes, empty to 70 kB strings) stored+loaded through FileRetainStore; non-trivial = a snapshot with an aggregate nested in an aggregate. crash: pairs (s_old, s_new) (same-layout updates, unrelated snapshots, first-ever save); for each pair the file-changing libc calls of store(s_new) are numbered by an LD_PRELOAD shim and the writer process is terminated before call K, after call K and - for write-type calls - after a prefix of {0,1,len/2,len-1} bytes, for every K from 1 until the writer completes (exhaustive over the call sequence of that store); non-trivial = a pair with at least one kill strictly between the first and the last call (label kill=* counts single kills). bytes: valid images from an independent STRN v1 encoder, corrupted structure-aware (tag/length/count fields patched to boundary values, nesting to 400 000 levels, truncate/delete/duplicate/insert/flip, raw bytes); non-trivial = corrupted image that still passes the magic/version gate. Distinct by SHA-256 of the case.",
+        assumptions: &[
+            "process death, not power loss: the page cache survives the writer, so a missing fsync is not flagged",
+            "the shim sees libc calls only (Rust std reaches the kernel through libc on this target; each pair first runs an un-killed writer and requires the shim's log to show the armed call sequence)",
+            "crash points are libc-call boundaries plus write prefixes {0,1,len/2,len-1}; a single writer process, no concurrent second writer",
+            "equality is bitwise on floats and includes entry / struct-field order (the order the IndexMaps iterate in)",
+            "generated arrays are consistent (element count = product of the dimension extents); nesting depth of generated snapshots <= 4 (quick) / <= 6 (thorough)",
+            "unbounded allocation = abort under RLIMIT_AS 1 GiB, or the address-space peak growing by more than 192 MiB + 256 x file size during one load",
+            "stack overflow is judged against an 8 MiB stack (worker thread size = Linux main-thread default)",
+        ],
+        workers_quick: 8,
+        workers_thorough: 16,
+        address_space_limit: 1 << 30,
+        watchdog_quick_s: 900,
+        watchdog_thorough_s: 7200,
         run,
     }
 }
 
-/// Helper subcommands (child processes of this check); None = not mine.
-pub fn helper(_args: &[String]) -> Option<i32> {
+// ---------------------------------------------------------------------------------------
+// helper subcommand: the writer that gets killed
+// ---------------------------------------------------------------------------------------
+
+const ARM_PATH: &str = "/.crashshim/arm";
+const DISARM_PATH: &str = "/.crashshim/disarm";
+
+#[derive(Clone, Debug, Serialize, Deserialize)]
+struct WriterJob {
+    /// None = first-ever save (nothing stored before arming)
+    old: Option<MSnap>,
+    new: MSnap,
+}
+
+/// `tpv c10-writer <job.json> <retain-file>`: store old (if any) completely, arm the shim,
+/// store new, disarm. Exit 0 = completed, 3 = store(old) failed, 4 = store(new) failed,
+/// 5 = bad arguments. The shim ends the process with 137.
+pub fn helper(args: &[String]) -> Option<i32> {
+    if args.first().map(|s| s.as_str()) != Some("c10-writer") {
+        return None;
+    }
+    let (Some(job_path), Some(store_path)) = (args.get(1), args.get(2)) else {
+        eprintln!("usage: tpv c10-writer <job.json> <retain-file>");
+        return Some(5);
+    };
+    let job: WriterJob = match std::fs::read_to_string(job_path)
+        .map_err(|e| e.to_string())
+        .and_then(|t| serde_json::from_str(&t).map_err(|e| e.to_string()))
+    {
+        Ok(j) => j,
+        Err(e) => {
+            eprintln!("c10-writer: cannot read job {job_path}: {e}");
+            return Some(5);
+        }
+    };
+    let store = FileRetainStore::new(store_path);
+    let new = job.new.to_snapshot();
+    if let Some(old) = &job.old {
+        if let Err(e) = store.store(&old.to_snapshot()) {
+            eprintln!("c10-writer: store(old) failed: {e}");
+            return Some(3);
+        }
+    }
+    let _ = std::fs::File::open(ARM_PATH);
+    let res = store.store(&new);
+    let _ = std::fs::File::open(DISARM_PATH);
+    if let Err(e) = res {
+        eprintln!("c10-writer: store(new) failed: {e}");
+        return Some(4);
+    }
+    Some(0)
+}
+
+// ---------------------------------------------------------------------------------------
+// shared plumbing
+// ---------------------------------------------------------------------------------------
+
+struct Env {
+    scratch: PathBuf,
+    shim: Option<PathBuf>,
+    exe: Option<PathBuf>,
+    /// infrastructure trouble observed inside a case (reported as inconclusive, never as a violation)
+    infra: RefCell<Vec<String>>,
+    /// distinct call sequences of store(s_new) seen by the shim
+    sequences: RefCell<std::collections::BTreeSet<String>>,
+    max_calls: usize,
+    /// the harness's own STRN encoder produces the same bytes as `store` (checked at start);
+    /// when false, unmutated images carry no expectation (the format has moved on)
+    encoder_agrees: std::cell::Cell<bool>,
+    /// samples offered so far per search (the evidence keeps the first few per worker;
+    /// rationing them keeps all three searches visible)
+    samples: RefCell<std::collections::BTreeMap<&'static str, u32>>,
+}
+
+impl Env {
+    fn infra(&self, msg: String) {
+        let mut v = self.infra.borrow_mut();
+        if v.len() < 8 && !v.contains(&msg) {
+            v.push(msg);
+        }
+    }
+
+    fn may_sample(&self, search: &'static str, limit: u32) -> bool {
+        let mut m = self.samples.borrow_mut();
+        let n = m.entry(search).or_insert(0);
+        *n += 1;
+        *n <= limit
+    }
+
+    fn fresh_dir(&self, name: &str) -> Result<PathBuf, String> {
+        let dir = self.scratch.join(name);
+        let _ = std::fs::remove_dir_all(&dir);
+        std::fs::create_dir_all(&dir)
+            .map_err(|e| format!("cannot create {}: {e}", dir.display()))?;
+        Ok(dir)
+    }
+}
+
+fn load_model(store: &FileRetainStore) -> Result<Result<MSnap, String>, String> {
+    // outer Err = panic, inner Err = load returned Err(_)
+    let res = catch(|| store.load())?;
+    Ok(match res {
+        Ok(s) => match MSnap::from_snapshot(&s) {
+            Ok(m) => Ok(m),
+            Err(what) => return Err(format!("load returned a snapshot containing {what}")),
+        },
+        Err(e) => Err(e.to_string()),
+    })
+}
+
+/// Can a plain file of `len` bytes be written next to `path`? Used to tell a refusing
+/// codec from a full disk.
+fn fs_is_healthy(path: &Path, len: usize) -> bool {
+    let probe = path.with_extension("fsprobe");
+    let ok = std::fs::write(&probe, vec![0u8; len.max(1)]).is_ok();
+    let _ = std::fs::remove_file(&probe);
+    ok
+}
+
+fn vm_peak_kb() -> Option<u64> {
+    let text = std::fs::read_to_string("/proc/self/status").ok()?;
+    for line in text.lines() {
+        if let Some(rest) = line.strip_prefix("VmPeak:") {
+            return rest.trim().trim_end_matches("kB").trim().parse().ok();
+        }
+    }
     None
 }
 
+// ---------------------------------------------------------------------------------------
+// (a) round trip
+// ---------------------------------------------------------------------------------------
+
+#[derive(Clone, Debug, Serialize, Deserialize)]
+pub struct RoundTripCase {
+    pub snaps: Vec<MSnap>,
+}
+
+fn roundtrip_from_tape(t: &Tape, thorough: bool) -> RoundTripCase {
+    let cfg = GenCfg::roundtrip(thorough);
+    let mut g = Gen::new(t, &cfg);
+    let n = 1 + g.r.weighted(&[5, 2, 1]);
+    let mut snaps = Vec::new();
+    for _ in 0..n {
+        snaps.push(g.snapshot(&cfg));
+    }
+    RoundTripCase { snaps }
+}
+
+fn label_snapshot(s: &MSnap, probe: &mut Probe) {
+    let mut seen = [false; TAG_COUNT + 1];
+    for (_, v) in &s.entries {
+        v.tags_into(&mut seen);
+    }
+    for (t, on) in seen.iter().enumerate() {
+        if *on {
+            probe.label(format!("rt_tag={t:02}"));
+        }
+    }
+    probe.label(format!("rt_depth={}", s.depth()));
+    if s.entries.is_empty() {
+        probe.label("rt_empty_snapshot");
+    }
+    if s.entries.iter().any(|(_, v)| v.has_special_float()) {
+        probe.label("rt_nan_or_negzero");
+    }
+    let longest = s
+        .entries
+        .iter()
+        .map(|(_, v)| v.max_string_len())
+        .max()
+        .unwrap_or(0);
+    if longest >= 4096 {
+        probe.label("rt_long_string");
+    }
+}
+
+fn check_roundtrip(env: &Env, case: &RoundTripCase, probe: &mut Probe) -> Result<(), String> {
+    let dir = match env.fresh_dir("rt") {
+        Ok(d) => d,
+        Err(e) => {
+            env.infra(e);
+            return Ok(());
+        }
+    };
+    let path = dir.join("retain.bin");
+    let store = FileRetainStore::new(&path);
+    for (i, snap) in case.snaps.iter().enumerate() {
+        label_snapshot(snap, probe);
+        let rs = snap.to_snapshot();
+        match catch(|| store.store(&rs)) {
+            Err(p) => return Err(format!("store of snapshot {i} panicked: {p}")),
+            Ok(Err(e)) => {
+                if !fs_is_healthy(&path, encode(snap).bytes.len()) {
+                    env.infra(format!("scratch directory not writable: {e}"));
+                    return Ok(());
+                }
+                return Err(format!(
+                    "store refused retainable snapshot {i} ({} entries, depth {}): {e}",
+                    snap.entries.len(),
+                    snap.depth()
+                ));
+            }
+            Ok(Ok(())) => {}
+        }
+        match load_model(&store) {
+            Err(p) => return Err(format!("load after store of snapshot {i}: {p}")),
+            Ok(Err(e)) => {
+                return Err(format!(
+                    "load after store of snapshot {i} returned Err: {e}"
+                ))
+            }
+            Ok(Ok(got)) => {
+                if got != *snap {
+                    return Err(format!(
+                        "snapshot {i} read back changed: {}",
+                        diff(snap, &got)
+                    ));
+                }
+            }
+        }
+    }
+    probe.label(format!("rt_stores={}", case.snaps.len()));
+    if case.snaps.iter().any(|s| s.has_nested_aggregate()) {
+        probe.nontrivial(&serde_json::to_vec(case).unwrap_or_default());
+        if env.may_sample("roundtrip", 1) {
+            probe.sample(json!({
+                "search": "roundtrip",
+                "snapshots": case.snaps.iter().map(|s| s.summary()).collect::<Vec<_>>(),
+            }));
+        }
+    }
+    let _ = std::fs::remove_dir_all(&dir);
+    Ok(())
+}
+
+// ---------------------------------------------------------------------------------------
+// (b) crash points
+// ---------------------------------------------------------------------------------------
+
+#[derive(Clone, Debug, Serialize, Deserialize)]
+pub struct CrashCase {
+    /// None = first-ever save: the directory is empty when store(new) starts
+    pub old: Option<MSnap>,
+    pub new: MSnap,
+    /// true: the scratch directory is wiped after every kill; false: leftovers of earlier
+    /// kills stay in place for the following ones
+    pub wipe: bool,
+}
+
+fn crash_from_tape(t: &Tape) -> CrashCase {
+    let cfg = GenCfg::crash();
+    let mut g = Gen::new(t, &cfg);
+    let relation = g.r.weighted(&[5, 4, 2]);
+    let wipe = g.r.chance(1, 2);
+    let mut old = g.snapshot(&cfg);
+    if old.entries.is_empty() {
+        old.entries.push(("x".into(), MV::Int(1)));
+    }
+    match relation {
+        0 => {
+            // same layout, new contents: what a running PLC saves cycle after cycle
+            let mut new = MSnap {
+                entries: old
+                    .entries
+                    .iter()
+                    .map(|(n, v)| (n.clone(), g.perturb(v)))
+                    .collect(),
+            };
+            if new == old {
+                new.entries.push(("changed".into(), MV::Bool(true)));
+            }
+            CrashCase {
+                old: Some(old),
+                new,
+                wipe,
+            }
+        }
+        1 => {
+            let mut new = g.snapshot(&cfg);
+            if new.entries.is_empty() || new == old {
+                new.entries.push(("changed".into(), MV::Bool(true)));
+            }
+            CrashCase {
+                old: Some(old),
+                new,
+                wipe,
+            }
+        }
+        _ => CrashCase {
+            old: None,
+            new: old,
+            wipe,
+        },
+    }
+}
+
+#[derive(Debug)]
+enum ChildEnd {
+    Completed,
+    Killed,
+    Other(String),
+}
+
+#[derive(Clone, Debug)]
+struct Call {
+    name: String,
+    len: usize,
+}
+
+struct ShimLog {
+    armed: bool,
+    done: Option<usize>,
+    calls: Vec<Call>,
+}
+
+fn read_shim_log(path: &Path) -> ShimLog {
+    let text = std::fs::read_to_string(path).unwrap_or_default();
+    let mut log = ShimLog {
+        armed: false,
+        done: None,
+        calls: Vec::new(),
+    };
+    for line in text.lines() {
+        let mut it = line.split(' ');
+        match it.next() {
+            Some("ARMED") => log.armed = true,
+            Some("DONE") => log.done = it.next().and_then(|n| n.parse().ok()),
+            Some("KILL") => {}
+            Some(n) if n.parse::<usize>().is_ok() => {
+                let name = it.next().unwrap_or("?").to_string();
+                let _fd = it.next();
+                let len = it
+                    .next()
+                    .and_then(|l| l.parse::<i64>().ok())
+                    .unwrap_or(0)
+                    .max(0) as usize;
+                log.calls.push(Call { name, len });
+            }
+            _ => {}
+        }
+    }
+    log
+}
+
+fn is_write_type(name: &str) -> bool {
+    matches!(name, "write" | "pwrite" | "writev" | "pwritev")
+}
+
+#[allow(clippy::too_many_arguments)]
+fn run_writer(
+    env: &Env,
+    job: &Path,
+    file: &Path,
+    log: &Path,
+    k: usize,
+    mode: &str,
+    p: usize,
+) -> Result<ChildEnd, String> {
+    let (Some(exe), Some(shim)) = (&env.exe, &env.shim) else {
+        return Err("no executable / shim".into());
+    };
+    let _ = std::fs::remove_file(log);
+    let mut child = std::process::Command::new(exe)
+        .arg("c10-writer")
+        .arg(job)
+        .arg(file)
+        .env("LD_PRELOAD", shim)
+        .env("CRASHSHIM_K", k.to_string())
+        .env("CRASHSHIM_MODE", mode)
+        .env("CRASHSHIM_P", p.to_string())
+        .env("CRASHSHIM_LOG", log)
+        .stdin(std::process::Stdio::null())
+        .stdout(std::process::Stdio::null())
+        .stderr(std::process::Stdio::piped())
+        .spawn()
+        .map_err(|e| format!("cannot spawn the writer: {e}"))?;
+    let started = Instant::now();
+    let status = loop {
+        match child.try_wait() {
+            Ok(Some(s)) => break s,
+            Ok(None) => {
+                if started.elapsed() > Duration::from_secs(60) {
+                    let _ = child.kill();
+                    let _ = child.wait();
+                    return Err("writer process did not finish within 60 s (killed)".into());
+                }
+                std::thread::sleep(Duration::from_micros(300));
+            }
+            Err(e) => {
+                let _ = child.kill();
+                let _ = child.wait();
+                return Err(format!("waiting for the writer failed: {e}"));
+            }
+        }
+    };
+    let mut stderr = String::new();
+    if let Some(mut e) = child.stderr.take() {
+        use std::io::Read;
+        let _ = e.read_to_string(&mut stderr);
+    }
+    use std::os::unix::process::ExitStatusExt;
+    Ok(match (status.code(), status.signal()) {
+        (Some(0), _) => ChildEnd::Completed,
+        (Some(137), _) => ChildEnd::Killed,
+        (Some(c), _) => ChildEnd::Other(format!("exit code {c}: {}", clip(stderr.trim(), 300))),
+        (None, Some(s)) => ChildEnd::Other(format!("signal {s}: {}", clip(stderr.trim(), 300))),
+        (None, None) => ChildEnd::Other("unknown exit".into()),
+    })
+}
+
+fn list_dir(dir: &Path) -> Vec<String> {
+    let mut v: Vec<String> = std::fs::read_dir(dir)
+        .map(|rd| {
+            rd.flatten()
+                .map(|e| {
+                    let len = e.metadata().map(|m| m.len()).unwrap_or(0);
+                    format!("{}({len}B)", e.file_name().to_string_lossy())
+                })
+                .collect()
+        })
+        .unwrap_or_default();
+    v.sort();
+    v
+}
+
+/// The oracle after one kill. `calls` = the shim's log of the killed run.
+fn judge_after_kill(
+    env: &Env,
+    case: &CrashCase,
+    dir: &Path,
+    file: &Path,
+    what: &str,
+    calls: &[Call],
+    probe: &mut Probe,
+) -> Result<(), String> {
+    let store = FileRetainStore::new(file);
+    let seq = || {
+        calls
+            .iter()
+            .map(|c| c.name.as_str())
+            .collect::<Vec<_>>()
+            .join(",")
+    };
+    let ctx = |msg: String| {
+        format!(
+            "writer killed {what}: {msg}; calls of store(new) so far: [{}]; directory: {:?}",
+            seq(),
+            list_dir(dir)
+        )
+    };
+    let empty = MSnap::default();
+    let old = case.old.as_ref().unwrap_or(&empty);
+    let leftovers = std::fs::read_dir(dir)
+        .map(|rd| rd.flatten().filter(|e| e.path() != file).count())
+        .unwrap_or(0);
+    if leftovers > 0 {
+        probe.label("after_kill_other_files_in_dir");
+    }
+    match load_model(&store) {
+        Err(p) => return Err(ctx(format!("next load: {p}"))),
+        Ok(Err(e)) => {
+            return Err(ctx(format!(
+                "next load returned an error ({e}) instead of the old or the new snapshot"
+            )))
+        }
+        Ok(Ok(got)) => {
+            if got == *old {
+                probe.label("after_kill=old");
+            } else if got == case.new {
+                probe.label("after_kill=new");
+            } else if got.entries.is_empty() {
+                return Err(ctx(
+                    "next load returned an empty snapshot (neither the old nor the new one)".into(),
+                ));
+            } else {
+                return Err(ctx(format!(
+                    "next load returned neither the old nor the new snapshot (vs old: {}; vs new: {})",
+                    diff(old, &got),
+                    diff(&case.new, &got)
+                )));
+            }
+        }
+    }
+    // a following save must work on whatever the kill left behind
+    match catch(|| store.store(&case.new.to_snapshot())) {
+        Err(p) => return Err(ctx(format!("following store panicked: {p}"))),
+        Ok(Err(e)) => {
+            if !fs_is_healthy(file, 64) {
+                env.infra(format!("scratch directory not writable: {e}"));
+                return Ok(());
+            }
+            return Err(ctx(format!("following store failed: {e}")));
+        }
+        Ok(Ok(())) => {}
+    }
+    match load_model(&store) {
+        Err(p) => Err(ctx(format!("load after the following store: {p}"))),
+        Ok(Err(e)) => Err(ctx(format!(
+            "load after the following store returned an error: {e}"
+        ))),
+        Ok(Ok(got)) if got != case.new => Err(ctx(format!(
+            "load after the following store differs from what was stored: {}",
+            diff(&case.new, &got)
+        ))),
+        Ok(Ok(_)) => Ok(()),
+    }
+}
+
+fn check_crash(env: &Env, case: &CrashCase, probe: &mut Probe) -> Result<(), String> {
+    if env.shim.is_none() || env.exe.is_none() {
+        env.infra("crashshim.so not built (expected at $TPV_ROOT/out/crashshim.so; ./check builds it from shim/crashshim.c) - crash enumeration skipped".into());
+        return Ok(());
+    }
+    let infra = |e: String| {
+        env.infra(e);
+        Ok(())
+    };
+    let dir = match env.fresh_dir("crash") {
+        Ok(d) => d,
+        Err(e) => return infra(e),
+    };
+    let work = match env.fresh_dir("crash-job") {
+        Ok(d) => d,
+        Err(e) => return infra(e),
+    };
+    let file = dir.join("retain.bin");
+    let job = work.join("job.json");
+    let log = work.join("shim.log");
+    let job_text = serde_json::to_vec(&WriterJob {
+        old: case.old.clone(),
+        new: case.new.clone(),
+    })
+    .unwrap_or_default();
+    if let Err(e) = std::fs::write(&job, job_text) {
+        return infra(format!("cannot write the writer job: {e}"));
+    }
+    probe.label(match (&case.old, case.wipe) {
+        (None, _) => "crash_pair=first_save",
+        (Some(o), _) if encode(o).bytes.len() == encode(&case.new).bytes.len() => {
+            "crash_pair=same_size"
+        }
+        (Some(o), _) if encode(o).bytes.len() > encode(&case.new).bytes.len() => {
+            "crash_pair=shrinking"
+        }
+        _ => "crash_pair=growing",
+    });
+    probe.label(if case.wipe || case.old.is_none() {
+        "crash_dir=wiped_per_kill"
+    } else {
+        "crash_dir=leftovers_kept"
+    });
+
+    // 0. un-killed run: the writer must complete, the shim must have seen the calls,
+    //    and the new snapshot must be what a load returns.
+    match run_writer(env, &job, &file, &log, 0, "before", 0) {
+        Err(e) => return infra(e),
+        Ok(ChildEnd::Completed) => {}
+        Ok(ChildEnd::Killed) => {
+            return infra("shim killed the writer although no kill was requested".into())
+        }
+        Ok(ChildEnd::Other(how)) => {
+            if !fs_is_healthy(&file, 64) {
+                return infra(format!(
+                    "writer failed and the scratch directory is not writable: {how}"
+                ));
+            }
+            return Err(format!("un-killed writer process failed: {how}"));
+        }
+    }
+    let base = read_shim_log(&log);
+    let total = match (base.armed, base.done) {
+        (true, Some(n)) if n >= 1 && n == base.calls.len() => n,
+        _ => {
+            return infra(format!(
+                "shim did not observe the writer (armed={}, done={:?}, calls={}); LD_PRELOAD not effective?",
+                base.armed,
+                base.done,
+                base.calls.len()
+            ))
+        }
+    };
+    let sequence = base
+        .calls
+        .iter()
+        .map(|c| c.name.as_str())
+        .collect::<Vec<_>>()
+        .join(",");
+    env.sequences.borrow_mut().insert(sequence.clone());
+    match load_model(&FileRetainStore::new(&file)) {
+        Ok(Ok(got)) if got == case.new => {}
+        Ok(Ok(got)) => {
+            return Err(format!(
+                "after an un-killed store the load differs: {}",
+                diff(&case.new, &got)
+            ))
+        }
+        Ok(Err(e)) => {
+            return Err(format!(
+                "after an un-killed store the load returned an error: {e}"
+            ))
+        }
+        Err(p) => return Err(format!("after an un-killed store: {p}")),
+    }
+
+    // 1. enumerate K = 1, 2, ... until the writer completes
+    let wipe = case.wipe || case.old.is_none();
+    let mut kills = 0usize;
+    let mut interior = false;
+    let mut k = 1usize;
+    loop {
+        if k > env.max_calls {
+            env.infra(format!(
+                "store(new) makes more than {} file-changing calls; enumeration truncated",
+                env.max_calls
+            ));
+            break;
+        }
+        let mut variants: Vec<(&str, usize)> = vec![("before", 0), ("after", 0)];
+        let mut vi = 0;
+        let mut completed = false;
+        while vi < variants.len() {
+            let (mode, p) = variants[vi];
+            if wipe || kills == 0 {
+                let _ = std::fs::remove_dir_all(&dir);
+                if let Err(e) = std::fs::create_dir_all(&dir) {
+                    return infra(format!("cannot recreate scratch directory: {e}"));
+                }
+            }
+            let end = match run_writer(env, &job, &file, &log, k, mode, p) {
+                Ok(e) => e,
+                Err(e) => return infra(e),
+            };
+            let killed_log = read_shim_log(&log);
+            match end {
+                ChildEnd::Completed => {
+                    if vi == 0 {
+                        completed = true;
+                        break;
+                    }
+                    probe.label("crash_nondeterministic_call_count");
+                }
+                ChildEnd::Other(how) => {
+                    if !fs_is_healthy(&file, 64) {
+                        return infra(format!(
+                            "writer failed and the scratch directory is not writable: {how}"
+                        ));
+                    }
+                    return Err(format!(
+                        "writer process failed on its own while storing (kill point {mode} call {k}): {how}; directory: {:?}",
+                        list_dir(&dir)
+                    ));
+                }
+                ChildEnd::Killed => {
+                    let call = killed_log.calls.get(k - 1).cloned().unwrap_or(Call {
+                        name: "?".into(),
+                        len: 0,
+                    });
+                    if vi == 0 && is_write_type(&call.name) && call.len > 0 {
+                        let mut ps = vec![0usize, 1, call.len / 2, call.len - 1];
+                        ps.retain(|p| *p < call.len);
+                        ps.dedup();
+                        for p in ps {
+                            variants.push(("partial", p));
+                        }
+                    }
+                    kills += 1;
+                    probe.label(format!("kill={mode}:{}", call.name));
+                    // strictly between the first and the last call of this store
+                    let is_interior = match mode {
+                        "before" => k > 1,
+                        "after" => k < total,
+                        _ => true,
+                    };
+                    interior |= is_interior;
+                    let what = match mode {
+                        "partial" => format!(
+                            "after {p} of {} bytes of call {k} ({}) of store(new)",
+                            call.len, call.name
+                        ),
+                        m => format!("{m} call {k} ({}) of store(new)", call.name),
+                    };
+                    judge_after_kill(env, case, &dir, &file, &what, &killed_log.calls, probe)?;
+                }
+            }
+            vi += 1;
+        }
+        if completed {
+            break;
+        }
+        k += 1;
+    }
+    probe.label(format!("crash_calls_per_store={:02}", total));
+    if k.saturating_sub(1) != total {
+        probe.label("crash_call_count_differs_from_unkilled_run");
+    }
+    if interior {
+        probe.nontrivial(&serde_json::to_vec(case).unwrap_or_default());
+        probe.sample(json!({
+            "search": "crash",
+            "old": case.old.as_ref().map(|s| s.summary()),
+            "new": case.new.summary(),
+            "leftovers_kept": !case.wipe,
+            "calls_of_store_new": sequence,
+            "kills": kills,
+        }));
+    }
+    let _ = std::fs::remove_dir_all(&dir);
+    let _ = std::fs::remove_dir_all(&work);
+    Ok(())
+}
+
+// ---------------------------------------------------------------------------------------
+// (c) arbitrary bytes
+// ---------------------------------------------------------------------------------------
+
+#[derive(Clone, Debug, Serialize, Deserialize)]
+pub enum Mutn {
+    /// overwrite one tag / length / count / header field with a boundary value
+    Patch {
+        field: u32,
+        how: u8,
+    },
+    /// wrap a value in `DEPTHS[depth]` one-element arrays (kind 0) or one-field structs (kind 1)
+    Nest {
+        at: u32,
+        kind: u8,
+        depth: u8,
+    },
+    Truncate {
+        at: u32,
+    },
+    Delete {
+        at: u32,
+        len: u16,
+    },
+    Dup {
+        from: u32,
+        len: u16,
+        at: u32,
+    },
+    SetByte {
+        at: u32,
+        val: u8,
+    },
+    Flip {
+        at: u32,
+        bit: u8,
+    },
+    Insert {
+        at: u32,
+        bytes: Vec<u8>,
+    },
+    /// replace everything after the 6-byte header (keep_header) or the whole image
+    Raw {
+        bytes: Vec<u8>,
+        keep_header: bool,
+    },
+}
+
+const DEPTHS: &[usize] = &[
+    1, 2, 16, 100, 127, 128, 129, 1_000, 10_000, 100_000, 400_000,
+];
+
+#[derive(Clone, Debug, Serialize, Deserialize)]
+pub struct BytesCase {
+    pub snap: MSnap,
+    pub muts: Vec<Mutn>,
+}
+
+fn scale(sel: u32, n: usize) -> usize {
+    if n == 0 {
+        return 0;
+    }
+    ((sel as u64 * n as u64) >> 32) as usize
+}
+
+pub fn build_image(case: &BytesCase) -> Vec<u8> {
+    let img = encode(&case.snap);
+    let mut bytes = img.bytes.clone();
+    // 1. in-place patches on the original field table
+    for m in &case.muts {
+        if let Mutn::Patch { field, how } = m {
+            let f = img.fields[scale(*field, img.fields.len())];
+            match f.kind {
+                FieldKind::Magic => {
+                    let i = f.off + (*how as usize % 4);
+                    bytes[i] ^= 0x20;
+                }
+                FieldKind::Version => {
+                    let v: u16 = [0, 2, 0xFFFF, 0x0100, 1][*how as usize % 5];
+                    bytes[f.off..f.off + 2].copy_from_slice(&v.to_le_bytes());
+                }
+                FieldKind::Tag => {
+                    let v: u8 = match *how % 8 {
+                        0 => 0,
+                        1 => 32,
+                        2 => 255,
+                        3 => 28,
+                        4 => 29,
+                        _ => 1 + (*how / 8) % 31,
+                    };
+                    bytes[f.off] = v;
+                }
+                _ => {
+                    let orig = u32::from_le_bytes(bytes[f.off..f.off + 4].try_into().unwrap());
+                    let rem = (img.bytes.len() - f.off - 4) as u32;
+                    let v: u32 = match *how % 14 {
+                        0 => 0,
+                        1 => 1,
+                        2 => orig.wrapping_sub(1),
+                        3 => orig.wrapping_add(1),
+                        4 => 0x7FFF_FFFF,
+                        5 => 0xFFFF_FFFF,
+                        6 => 0x0040_0000,
+                        7 => 0x0100_0000,
+                        8 => rem,
+                        9 => rem.wrapping_add(1),
+                        10 => orig.wrapping_mul(2),
+                        11 => 0x8000_0000,
+                        12 => 0x0001_0000,
+                        _ => rem / 2,
+                    };
+                    bytes[f.off..f.off + 4].copy_from_slice(&v.to_le_bytes());
+                }
+            }
+        }
+    }
+    // 2. at most one nesting wrapper, inserted in front of a value tag
+    if let Some(Mutn::Nest { at, kind, depth }) =
+        case.muts.iter().find(|m| matches!(m, Mutn::Nest { .. }))
+    {
+        let tags: Vec<usize> = img
+            .fields
+            .iter()
+            .filter(|f| f.kind == FieldKind::Tag)
+            .map(|f| f.off)
+            .collect();
+        let levels = DEPTHS[*depth as usize % DEPTHS.len()];
+        let unit: &[u8] = if kind % 2 == 0 {
+            // Array, 1 element, 0 dimensions
+            &[28, 1, 0, 0, 0, 0, 0, 0, 0]
+        } else {
+            // Struct, type name "", 1 field named ""
+            &[29, 0, 0, 0, 0, 1, 0, 0, 0, 0, 0, 0, 0]
+        };
+        let mut wrapper = Vec::with_capacity(unit.len() * levels);
+        for _ in 0..levels {
+            wrapper.extend_from_slice(unit);
+        }
+        if tags.is_empty() {
+            // empty snapshot: make it one entry named "" holding the wrapper around Null
+            bytes.truncate(6);
+            bytes.extend_from_slice(&1u32.to_le_bytes());
+            bytes.extend_from_slice(&0u32.to_le_bytes());
+            bytes.extend_from_slice(&wrapper);
+            bytes.push(31);
+        } else {
+            let off = tags[scale(*at, tags.len())];
+            bytes.splice(off..off, wrapper);
+        }
+    }
+    // 3. byte-level edits, in order
+    for m in &case.muts {
+        match m {
+            Mutn::Patch { .. } | Mutn::Nest { .. } => {}
+            Mutn::Truncate { at } => {
+                let n = scale(*at, bytes.len() + 1);
+                bytes.truncate(n);
+            }
+            Mutn::Delete { at, len } => {
+                let s = scale(*at, bytes.len() + 1);
+                let e = (s + *len as usize).min(bytes.len());
+                bytes.drain(s..e);
+            }
+            Mutn::Dup { from, len, at } => {
+                let s = scale(*from, bytes.len() + 1);
+                let e = (s + *len as usize).min(bytes.len());
+                let chunk = bytes[s..e].to_vec();
+                let a = scale(*at, bytes.len() + 1);
+                bytes.splice(a..a, chunk);
+            }
+            Mutn::SetByte { at, val } => {
+                if !bytes.is_empty() {
+                    let i = scale(*at, bytes.len());
+                    bytes[i] = *val;
+                }
+            }
+            Mutn::Flip { at, bit } => {
+                if !bytes.is_empty() {
+                    let i = scale(*at, bytes.len());
+                    bytes[i] ^= 1 << (bit % 8);
+                }
+            }
+            Mutn::Insert { at, bytes: ins } => {
+                let a = scale(*at, bytes.len() + 1);
+                bytes.splice(a..a, ins.iter().copied());
+            }
+            Mutn::Raw {
+                bytes: raw,
+                keep_header,
+            } => {
+                if *keep_header {
+                    bytes.truncate(6);
+                    bytes.extend_from_slice(raw);
+                } else {
+                    bytes = raw.clone();
+                }
+            }
+        }
+    }
+    bytes
+}
+
+fn mutn_strategy() -> impl Strategy<Value = Mutn> {
+    let small_bytes = proptest::collection::vec(any::<u8>(), 0..24);
+    // raw tails biased towards plausible structure: small tags, small little-endian lengths
+    let plausible = proptest::collection::vec(
+        prop_oneof![
+            4 => 0u8..34,
+            3 => Just(0u8),
+            1 => any::<u8>(),
+            1 => Just(0xFFu8),
+        ],
+        0..64,
+    );
+    prop_oneof![
+        10 => (any::<u32>(), any::<u8>()).prop_map(|(field, how)| Mutn::Patch { field, how }),
+        2 => (any::<u32>(), any::<u8>(), 0u8..(DEPTHS.len() as u8)).prop_map(|(at, kind, depth)| Mutn::Nest { at, kind, depth }),
+        3 => any::<u32>().prop_map(|at| Mutn::Truncate { at }),
+        2 => (any::<u32>(), 1u16..40).prop_map(|(at, len)| Mutn::Delete { at, len }),
+        2 => (any::<u32>(), 1u16..80, any::<u32>()).prop_map(|(from, len, at)| Mutn::Dup { from, len, at }),
+        2 => (any::<u32>(), prop_oneof![any::<u8>(), 0u8..34, Just(0xFFu8)]).prop_map(|(at, val)| Mutn::SetByte { at, val }),
+        2 => (any::<u32>(), 0u8..8).prop_map(|(at, bit)| Mutn::Flip { at, bit }),
+        1 => (any::<u32>(), small_bytes).prop_map(|(at, bytes)| Mutn::Insert { at, bytes }),
+        2 => (plausible, prop_oneof![4 => Just(true), 1 => Just(false)]).prop_map(|(bytes, keep_header)| Mutn::Raw { bytes, keep_header }),
+    ]
+}
+
+fn bytes_strategy() -> impl Strategy<Value = BytesCase> {
+    (
+        tape_strategy(90).prop_map(|t| {
+            let cfg = GenCfg::bytes();
+            let mut g = Gen::new(&t, &cfg);
+            // prefer snapshots that contain arrays/structs: those carry the counts
+            g.snapshot(&cfg)
+        }),
+        prop_oneof![
+            1 => Just(Vec::new()),
+            19 => proptest::collection::vec(mutn_strategy(), 1..5),
+        ],
+    )
+        .prop_map(|(snap, muts)| BytesCase { snap, muts })
+}
+
+fn err_class(msg: &str) -> String {
+    let m: String = msg
+        .chars()
+        .map(|c| if c.is_ascii_digit() { '#' } else { c })
+        .collect();
+    let m = m.replace("retain store error ", "");
+    clip(&m, 48)
+}
+
+fn check_bytes(env: &Env, case: &BytesCase, probe: &mut Probe) -> Result<(), String> {
+    let dir = match env.fresh_dir("bytes") {
+        Ok(d) => d,
+        Err(e) => {
+            env.infra(e);
+            return Ok(());
+        }
+    };
+    let path = dir.join("retain.bin");
+    let image = build_image(case);
+    if let Err(e) = std::fs::write(&path, &image) {
+        env.infra(format!("cannot write the scratch image: {e}"));
+        return Ok(());
+    }
+    for m in &case.muts {
+        probe.label(match m {
+            Mutn::Patch { .. } => "mut=patch_field",
+            Mutn::Nest { .. } => "mut=nest",
+            Mutn::Truncate { .. } => "mut=truncate",
+            Mutn::Delete { .. } => "mut=delete",
+            Mutn::Dup { .. } => "mut=duplicate",
+            Mutn::SetByte { .. } => "mut=set_byte",
+            Mutn::Flip { .. } => "mut=flip_bit",
+            Mutn::Insert { .. } => "mut=insert",
+            Mutn::Raw { .. } => "mut=raw",
+        });
+    }
+    if case.muts.is_empty() {
+        probe.label("mut=none");
+    }
+    let gate = image.len() >= 6 && &image[..4] == b"STRN" && image[4..6] == [1, 0];
+    probe.label(if gate { "gate=passed" } else { "gate=rejected" });
+    let store = FileRetainStore::new(&path);
+    let peak_before = vm_peak_kb();
+    let first = load_model(&store);
+    let peak_after = vm_peak_kb();
+    let describe = || {
+        format!(
+            "image of {} bytes (hex prefix {})",
+            image.len(),
+            image
+                .iter()
+                .take(48)
+                .map(|b| format!("{b:02x}"))
+                .collect::<String>()
+        )
+    };
+    let first = match first {
+        Err(p) => {
+            return Err(format!(
+                "load of arbitrary bytes did not return: {p}; {}",
+                describe()
+            ))
+        }
+        Ok(r) => r,
+    };
+    if let (Some(b), Some(a)) = (peak_before, peak_after) {
+        let grown_kb = a.saturating_sub(b);
+        let allowed_kb = 192 * 1024 + (image.len() as u64 * 256) / 1024;
+        if grown_kb > allowed_kb {
+            return Err(format!(
+                "load grew the address-space peak by {} MiB for an {}",
+                grown_kb / 1024,
+                describe()
+            ));
+        }
+    }
+    let load_summary = match &first {
+        Err(e) => format!("Err({e})"),
+        Ok(m) => format!("Ok({} entries)", m.entries.len()),
+    };
+    match first {
+        Err(e) => {
+            probe.label(format!("load=err:{}", err_class(&e)));
+            if case.muts.is_empty() && env.encoder_agrees.get() {
+                return Err(format!("a valid image was rejected: {e}; {}", describe()));
+            }
+        }
+        Ok(m1) => {
+            probe.label("load=ok");
+            if case.muts.is_empty() && env.encoder_agrees.get() && m1 != case.snap {
+                return Err(format!(
+                    "valid image decoded to a different snapshot: {}",
+                    diff(&case.snap, &m1)
+                ));
+            }
+            // Ok => storing what was loaded and loading again is stable
+            let rs = m1.to_snapshot();
+            match catch(|| store.store(&rs)) {
+                Err(p) => {
+                    return Err(format!(
+                        "re-store of a loaded snapshot panicked: {p}; {}",
+                        describe()
+                    ))
+                }
+                Ok(Err(e)) => {
+                    if !fs_is_healthy(&path, 64) {
+                        env.infra(format!("scratch directory not writable: {e}"));
+                        return Ok(());
+                    }
+                    return Err(format!(
+                        "load accepted the file but the loaded snapshot cannot be stored again: {e}; {}",
+                        describe()
+                    ));
+                }
+                Ok(Ok(())) => {}
+            }
+            match load_model(&store) {
+                Err(p) => return Err(format!("re-load: {p}; {}", describe())),
+                Ok(Err(e)) => {
+                    return Err(format!(
+                        "re-load of a re-stored snapshot returned an error: {e}; {}",
+                        describe()
+                    ))
+                }
+                Ok(Ok(m2)) => {
+                    if m2 != m1 {
+                        return Err(format!(
+                            "re-store/re-load is not stable: {}; {}",
+                            diff(&m1, &m2),
+                            describe()
+                        ));
+                    }
+                }
+            }
+        }
+    }
+    if gate && !case.muts.is_empty() {
+        probe.nontrivial(&image);
+        if env.may_sample("bytes", 1) {
+            probe.sample(json!({
+                "search": "bytes",
+                "mutations": case.muts.iter().map(|m| clip(&format!("{m:?}"), 80)).collect::<Vec<_>>(),
+                "image_bytes": image.len(),
+                "image_hex_prefix": image.iter().take(40).map(|b| format!("{b:02x}")).collect::<String>(),
+                "load": load_summary,
+            }));
+        }
+    }
+    let _ = std::fs::remove_dir_all(&dir);
+    Ok(())
+}
+
+// ---------------------------------------------------------------------------------------
+
 fn run(ctx: &mut RunCtx) {
-    ctx.inconclusive("check not built yet");
+    let tier = ctx.tier;
+    let thorough = tier == crate::engine::Tier::Thorough;
+    let scratch = ctx
+        .out_dir
+        .join(format!("scratch-w{}-{}", ctx.worker, std::process::id()));
+    let shim = verif_root().join("out").join("crashshim.so");
+    let env = Env {
+        scratch: scratch.clone(),
+        shim: if shim.is_file() { Some(shim) } else { None },
+        exe: std::env::current_exe().ok(),
+        infra: RefCell::new(Vec::new()),
+        sequences: RefCell::new(Default::default()),
+        max_calls: 400,
+        encoder_agrees: std::cell::Cell::new(true),
+        samples: RefCell::new(Default::default()),
+    };
+    if let Err(e) = std::fs::create_dir_all(&scratch) {
+        ctx.inconclusive(format!(
+            "cannot create scratch directory {}: {e}",
+            scratch.display()
+        ));
+        return;
+    }
+
+    // sanity of the independent encoder against the real one (a note, never a verdict)
+    {
+        let g = model::golden();
+        if let Ok(dir) = env.fresh_dir("sanity") {
+            let p = dir.join("retain.bin");
+            if FileRetainStore::new(&p).store(&g.to_snapshot()).is_ok() {
+                let same = std::fs::read(&p)
+                    .map(|b| b == encode(&g).bytes)
+                    .unwrap_or(false);
+                if !same {
+                    env.encoder_agrees.set(false);
+                    ctx.note("the harness's own STRN v1 encoder no longer produces the same bytes as FileRetainStore::store: the corrupted images of search `bytes` are less structure-aware than intended");
+                }
+            }
+            let _ = std::fs::remove_dir_all(&dir);
+        }
+    }
+
+    // (a) round trip
+    if ctx.worker == 0 && ctx.only_replay.is_none() {
+        let case = RoundTripCase {
+            snaps: vec![model::golden(), MSnap::default(), model::golden()],
+        };
+        let j = serde_json::to_value(&case).unwrap();
+        ctx.enumerated("roundtrip", &j, |p| check_roundtrip(&env, &case, p));
+    }
+    ctx.search(
+        "roundtrip",
+        tape_strategy(if thorough { 1500 } else { 700 })
+            .prop_map(move |t| roundtrip_from_tape(&t, thorough)),
+        tier.pick(8_000, 200_000),
+        |c: &RoundTripCase, p| check_roundtrip(&env, c, p),
+    );
+
+    // (c) arbitrary bytes (before the crash enumeration: cheap, and a dying worker is
+    // attributed to the journalled case)
+    ctx.search(
+        "bytes",
+        bytes_strategy(),
+        tier.pick(32_000, 2_000_000),
+        |c: &BytesCase, p| check_bytes(&env, c, p),
+    );
+
+    // (b) crash points
+    ctx.search(
+        "crash",
+        tape_strategy(160).prop_map(|t| crash_from_tape(&t)),
+        tier.pick(160, 3_000),
+        |c: &CrashCase, p| check_crash(&env, c, p),
+    );
+
+    for s in env.sequences.borrow().iter() {
+        ctx.note(format!(
+            "file-changing libc calls of one store(new), as numbered by the shim: {s}"
+        ));
+    }
+    let infra: Vec<String> = env.infra.borrow().clone();
+    for msg in infra {
+        if ctx.only_replay.is_some() {
+            eprintln!("INCONCLUSIVE: {msg}");
+        }
+        ctx.inconclusive(msg);
+    }
+    let _ = std::fs::remove_dir_all(&scratch);
+    let _ = digest64;
 }
